@@ -11,7 +11,7 @@ interpreter, as a case {'history': [event names], 'probe': event-or-'digest'}.""
 import json
 import random
 import time
-from collections import Counter, deque
+from collections import deque
 
 from .. import explore as X
 
